@@ -324,6 +324,53 @@ int main(int argc, char **argv) {
     while (std::getline(std::cin, line)) {
         std::vector<std::string> f = split_ws(line);
         case_begin(f.empty() ? std::string("?") : f[0]);
+        if (f.size() >= 20 && f[1] == "coll2") {
+            // <id> coll2 <font> <hex utf32 text> <target idx> <neighbour idx> <dir> Lbx Lby Ltx Lty ox oy sx sy nx ny <margin> <isAfter> <sameCluster>
+            // the resolved-verdict clause of C17 on the real ShiftCollider: target and neighbour are two slots of a live segment placed at
+            // (1000,0)+offset and (1000+nx, ny); initSlot, mergeSlot, resolve; the boxes are printed for the geometric oracle
+            using namespace graphite2;
+            const std::string &id = f[0];
+            gr_face *face = get_face(f[2], 0, false);
+            if (!face) { printf("%s NOFACE\n", id.c_str()); fflush(stdout); case_end(); continue; }
+            std::vector<uint32_t> u = parse_units(f[3], 32);
+            void *buf = mkbuf<uint32_t>(u);
+            int dir = atoi(f[6].c_str());
+            gr_segment *seg = gr_make_seg(0, face, 0, 0, gr_utf32, buf, u.size(), dir);
+            free(buf);
+            Segment *gs = static_cast<Segment *>(seg);
+            Slot *tg = 0, *nb = 0;
+            if (seg) { int k = 0, a = atoi(f[4].c_str()), b = atoi(f[5].c_str()); for (Slot *q = gs->first(); q; q = q->next(), ++k) { if (k == a) tg = q; if (k == b) nb = q; } }
+            if (!seg || !tg || !nb || tg == nb || !gs->collisionInfo(tg)) { if (seg) gr_seg_destroy(seg); printf("%s COLL2 none\n", id.c_str()); fflush(stdout); case_end(); continue; }
+            float v[10]; for (int i = 0; i < 10; i++) v[i] = (float)atof(f[7 + i].c_str());
+            float margin = (float)atof(f[17].c_str()); bool isAfter = f[18] == "1", sameCluster = f[19] == "1";
+            const GlyphCache &gc = gs->getFace()->glyphs();
+            std::string out = id + " COLL2";
+            if (!gc.check(tg->gid()) || !gc.check(nb->gid())) { gr_seg_destroy(seg); printf("%s COLL2 nobox\n", id.c_str()); fflush(stdout); case_end(); continue; }
+            SlotCollision *ct = gs->collisionInfo(tg), *cn = gs->collisionInfo(nb);
+            ct->setSeqClass(0); ct->setSeqProxClass(0); ct->setSeqOrder(0);          // no sequence-order regions (outside the clause)
+            tg->m_position = Position(1000, 0) + Position(v[4], v[5]);      // (Slot::origin(pos) would add the slot's shift)
+            nb->m_position = Position(1000 + v[8], v[9]);
+            ShiftCollider sc(0);
+            bool ok = sc.initSlot(gs, tg, Rect(Position(v[0], v[1]), Position(v[2], v[3])), margin, 1.f, Position(v[6], v[7]), Position(v[4], v[5]), dir, 0);
+            bool hasCol = false, merged = false, isCol = true; Position r(0, 0);
+            if (ok) { merged = sc.mergeSlot(gs, nb, cn, Position(0, 0), isAfter, sameCluster, hasCol, false, 0); if (merged) r = sc.resolve(gs, isCol, 0); }
+            char t5[600];
+            const BBox &tb = gc.getBoundingBBox(tg->gid()); const SlantBox &ts = gc.getBoundingSlantBox(tg->gid());
+            snprintf(t5, sizeof t5, " init=%d merged=%d hasCol=%d isCol=%d shift=%s,%s T %s,%s,%s,%s,%s,%s,%s,%s N", ok, merged, hasCol, isCol, fnum(r.x).c_str(), fnum(r.y).c_str(),
+                     fnum(tb.xi).c_str(), fnum(tb.yi).c_str(), fnum(tb.xa).c_str(), fnum(tb.ya).c_str(), fnum(ts.si).c_str(), fnum(ts.di).c_str(), fnum(ts.sa).c_str(), fnum(ts.da).c_str());
+            out += t5;
+            unsigned ng = nb->gid(); int nsub = gc.numSubBounds(ng);
+            if (getenv("VERIF_COLLDEBUG")) for (int i = 0; i < 4; i++) { out += " Z" + std::to_string(i) + "[" + fnum(sc._ranges[i]._pos) + "," + fnum(sc._ranges[i]._posm) + "]"; for (Zones::const_iterator e = sc._ranges[i].begin(); e != sc._ranges[i].end(); ++e) out += "(" + fnum(e->x) + "," + fnum(e->xm) + ")"; }
+            out += " nsub=" + std::to_string(nsub);
+            for (int j = -1; j < nsub; j++) {                                        // the main octabox first, then the sub-boxes (which stand for the glyph when it has any)
+                const BBox &b = j < 0 ? gc.getBoundingBBox(ng) : gc.getSubBoundingBBox(ng, (uint8)j); const SlantBox &sb = j < 0 ? gc.getBoundingSlantBox(ng) : gc.getSubBoundingSlantBox(ng, (uint8)j);
+                snprintf(t5, sizeof t5, " %s,%s,%s,%s,%s,%s,%s,%s", fnum(b.xi).c_str(), fnum(b.yi).c_str(), fnum(b.xa).c_str(), fnum(b.ya).c_str(), fnum(sb.si).c_str(), fnum(sb.di).c_str(), fnum(sb.sa).c_str(), fnum(sb.da).c_str());
+                out += t5;
+            }
+            gr_seg_destroy(seg);
+            printf("%s\n", out.c_str()); fflush(stdout); case_end();
+            continue;
+        }
         if (f.size() >= 17 && f[1] == "coll") {
             // <id> coll <font> <hex utf32 text> <slot index> <dir> Lbx Lby Ltx Lty ox oy sx sy <axis> <end 0|1> <margin>
             // the limit clause of C17 on the real ShiftCollider: initSlot with the given limit / offset / shift, then every position
